@@ -125,6 +125,13 @@ META = {
         "note": "Only JSON-representable values are generated; see assumptions.",
         "technique": "round-trip / idempotence property-based testing (rapid reflection generator) + native go fuzzing of JSON input",
     },
+    "C06": {
+        "text": "The ordered write log of the real pod control on the recording API is checked per pod create for identity, storage wiring and 'claims first', "
+                "with single claim failures injected at claim creations and claim cache lookups, over scale-in/scale-out cycles of the same ordinal.",
+        "design_ref": "DESIGN.md section 3, C06",
+        "note": "Claim creation order inside one pod (Go map order in the code) is not controlled by the harness; the oracle is order-insensitive.",
+        "technique": "stateful property-based testing (rapid) with injected claim faults and a write-log invariant",
+    },
 }
 
 _pending = "check not built yet in this round of the build; planned per DESIGN.md section 3 (generated-input search applies)"
